@@ -1465,3 +1465,259 @@ Qed.
 Example repaired_aud_ex :
   match cycle_repaired init_state (aud_e Fail) with Done o => fetchMetadata (co_state o) | Crash => false end = true.
 Proof. vm_compute. reflexivity. Qed.
+
+(* ---------------------------------------------------------------------------------------------
+   runs in worlds outside leader_stable / answers_match_asks (added 2026-10-02, appended): the ghost, the
+   invariant and the run-level forms of C11's clauses 1-3 for xrun, by induction over the cycle list
+   --------------------------------------------------------------------------------------------- *)
+Record xentry := mkXentry {
+  xn_pre   : state;        (* state at the call of getOffsets (after the ticker) *)
+  xn_env   : xenv;
+  xn_ghost : option env;   (* the last completely refreshed environment before this cycle *)
+  xn_out   : cycle_out
+}.
+
+(* the refresh only consults x_env (Topics, Partitions, Leader at :179): the ghost moves as in `trace` *)
+Fixpoint xtrace (st : state) (g : option env) (l : list (bool * xenv)) : list xentry :=
+  match l with
+  | [] => []
+  | (tk, x) :: r =>
+      let st1 := tick tk st in
+      match xcycle st1 x with
+      | Crash => []
+      | Done o => mkXentry st1 x g o :: xtrace (co_state o) (ghost_next st1 (x_env x) g) r
+      end
+  end.
+
+Definition xghost_now (en : xentry) : option env := ghost_next (xn_pre en) (x_env (xn_env en)) (xn_ghost en).
+
+(* the invariant only looks at the snapshot: whatever sets the flag, a state whose snapshot is the one
+   maybe_refresh leaves satisfies it for the moved ghost *)
+Lemma inv_after_refresh st g e st' :
+  inv st g -> snap st' = fst (maybe_refresh st e) -> inv st' (ghost_next st e g).
+Proof.
+  intros [Hw [Hok Hf]] Hs. split; [unfold wf; rewrite Hs; apply refresh_wf; auto|].
+  rewrite Hs. unfold ghost_next.
+  destruct (refreshed st e) as [ts|] eqn:Er.
+  - destruct (maybe_refresh_done _ _ _ Er) as [new [Hb ->]]. cbn [fst].
+    destruct (build_some _ _ _ Hb) as [_ [Hin Hout]].
+    apply refreshed_some in Er as [_ [Ht _]].
+    split.
+    + intros t Hin'. rewrite (ghost_find_env _ _ _ Ht). unfold ghost_topics in Hin'. rewrite Ht in Hin'.
+      destruct (in_dec Z.eq_dec t ts); [|contradiction]. apply Hin. auto.
+    + intros t. rewrite (ghost_find_env _ _ _ Ht). destruct (in_dec Z.eq_dec t ts) as [H|H].
+      * apply Hin. auto.
+      * apply Hout. auto.
+  - rewrite (maybe_refresh_not _ _ Er). cbn [fst]. auto.
+Qed.
+
+Lemma inv_xcycle st g x o :
+  inv st g -> xcycle st x = Done o -> inv (co_state o) (ghost_next st (x_env x) g).
+Proof.
+  intros Hi Hc. apply inv_after_refresh; auto. apply xcycle_done in Hc as [Hs _]. exact Hs.
+Qed.
+
+Lemma xtrace_inv l : forall st g en,
+  inv st g -> In en (xtrace st g l) ->
+  inv (xn_pre en) (xn_ghost en) /\ xcycle (xn_pre en) (xn_env en) = Done (xn_out en).
+Proof.
+  induction l as [|[tk x] r IH]; simpl; intros st g en Hi Hin; [contradiction|].
+  destruct (xcycle (tick tk st) x) as [o|] eqn:Ec; [|contradiction].
+  destruct Hin as [<-|Hin].
+  - simpl. split; [apply inv_tick; auto | auto].
+  - eapply IH; [|exact Hin]. eapply inv_xcycle; [apply inv_tick; eauto | auto].
+Qed.
+
+Lemma xentry_post_inv l en :
+  In en (xtrace init_state None l) -> inv (co_state (xn_out en)) (xghost_now en).
+Proof.
+  intros Hin. destruct (xtrace_inv _ _ _ _ inv_init Hin) as [Hi Hc]. eapply inv_xcycle; eauto.
+Qed.
+
+(* xrun (what the driver prints for the sc3 cases) is xtrace without the ghosts, plus the crash *)
+Theorem xrun_is_xtrace l : forall st g,
+  exists tail,
+    xrun st l = map (fun en => (fetchMetadata (xn_pre en), Done (xn_out en))) (xtrace st g l) ++ tail
+    /\ (tail = [] \/ exists f, tail = [(f, Crash)]).
+Proof.
+  induction l as [|[tk x] r IH]; simpl; intros st g.
+  - exists []. auto.
+  - destruct (xcycle (tick tk st) x) as [o|] eqn:Ec.
+    + destruct (IH (co_state o) (ghost_next (tick tk st) (x_env x) g)) as [tail [H1 H2]].
+      exists tail. simpl. rewrite H1. auto.
+    + exists [(fetchMetadata (tick tk st), Crash)]. simpl. eauto.
+Qed.
+
+(* on worlds with both hypotheses xtrace is trace *)
+Theorem xtrace_plain l : forall st g,
+  map (fun en => (xn_pre en, xn_ghost en, xn_out en)) (xtrace st g (map (fun x => (fst x, plain (snd x))) l))
+  = map (fun en => (en_pre en, en_ghost en, en_out en)) (trace st g l).
+Proof.
+  induction l as [|[tk e] r IH]; simpl; intros st g; auto. rewrite xcycle_plain.
+  destruct (cycle (tick tk st) e) as [o|]; simpl; [rewrite IH|]; reflexivity.
+Qed.
+
+(* XR.1 (clause 1 over runs, no environment hypothesis).  In every cycle of every run of xrun: (t, p) is in broker b's
+   request iff t was listed and p was one of its partitions WITH A LEADER in the last complete metadata read (this
+   cycle's if it completed), and b is the broker Leader names at the REQUEST SITE (:219) of this cycle.  No block twice,
+   never two brokers for one partition. *)
+Theorem xasked_run l en :
+  In en (xtrace init_state None l) ->
+  (forall b t p, In (b, t, p) (co_asks (xn_out en)) <->
+     exists ge ts ps, xghost_now en = Some ge /\ e_topics ge = Good ts /\ In t ts /\ e_parts ge t = Good ps
+       /\ In p ps /\ has_leader ge t p = true /\ x_leader_req (xn_env en) t p = Good b)
+  /\ NoDup (co_asks (xn_out en))
+  /\ (forall b b' t p, In (b, t, p) (co_asks (xn_out en)) -> In (b', t, p) (co_asks (xn_out en)) -> b = b').
+Proof.
+  intros Hin. destruct (xtrace_inv _ _ _ _ inv_init Hin) as [Hi Hc].
+  destruct (xentry_post_inv _ _ Hin) as [_ [_ Hf]].
+  destruct (xasked_exactly _ _ _ (proj1 Hi) Hc) as [Hiff Hn].
+  assert (Hrun : forall b t p, In (b, t, p) (co_asks (xn_out en)) <->
+     exists ge ts ps, xghost_now en = Some ge /\ e_topics ge = Good ts /\ In t ts /\ e_parts ge t = Good ps
+       /\ In p ps /\ has_leader ge t p = true /\ x_leader_req (xn_env en) t p = Good b).
+  { intros b t p. rewrite Hiff. split.
+    - intros [i [Hfi [Hp Hl]]]. rewrite Hf in Hfi.
+      apply ghost_find_some in Hfi as [ge [ts [ps [H1 [H2 [H3 [H4 ->]]]]]]].
+      simpl in Hp. apply filter_In in Hp as [Hp Hh]. exists ge, ts, ps. auto 10.
+    - intros [ge [ts [ps [H1 [H2 [H3 [H4 [H5 [H6 H7]]]]]]]]]. eexists. rewrite Hf. split.
+      + apply ghost_find_some. exists ge, ts, ps. auto 10.
+      + simpl. split; auto. apply filter_In. auto. }
+  split; [exact Hrun|]. split; [exact Hn|].
+  intros b b' t p H1 H2. apply Hrun in H1 as [? [? [? [_ [_ [_ [_ [_ [_ H1]]]]]]]]].
+  apply Hrun in H2 as [? [? [? [_ [_ [_ [_ [_ [_ H2]]]]]]]]]. congruence.
+Qed.
+
+Lemma existsb_ask_eqb_true a asks : In a asks -> existsb (ask_eqb a) asks = true.
+Proof.
+  intros H. apply existsb_exists. exists a. split; auto. unfold ask_eqb. destruct (ask_eq_dec a a); congruence.
+Qed.
+
+Lemma x_ask_update_eq x s a :
+  x_ask_update x s a = if x_omit x (fst (fst a)) (snd (fst a)) (snd a) then [] else ask_update (x_env x) s a.
+Proof.
+  unfold x_ask_update, x_ask_result, ask_update. destruct (x_omit x (fst (fst a)) (snd (fst a)) (snd a)); reflexivity.
+Qed.
+
+(* the two ways a block of a response of THIS cycle can be behind an update *)
+Definition answered_asked (x : xenv) (o : cycle_out) (t p off : Z) : Prop :=
+  exists b ans rest, In (b, t, p) (co_asks o) /\ x_omit x b t p = false
+    /\ e_answer (x_env x) b = Good ans /\ ans t p = (0, off :: rest).
+Definition answered_unasked (x : xenv) (o : cycle_out) (t p off : Z) : Prop :=
+  exists b t' p' ans rest, In (b, t', p') (co_asks o) /\ e_answer (x_env x) b = Good ans
+    /\ In (t, p, (0, off :: rest)) (x_extra x b) /\ ~ In (b, t, p) (co_asks o).
+
+(* one cycle: the updates are exactly the successful blocks of the responses that arrived *)
+Lemma xupdate_iff st x o :
+  xcycle st x = Done o ->
+  forall t p off c, In (t, p, off, c) (co_updates o) <->
+    (answered_asked x o t p off \/ answered_unasked x o t p off) /\ c = count_of (snap (co_state o)) t.
+Proof.
+  intros Hc t p off c. pose proof (xcycle_done _ _ _ Hc) as [Hs [Ha [Hupd _]]].
+  set (s := fst (maybe_refresh st (x_env x))) in *. set (asks := gen_asks (env_req x) s) in *.
+  split.
+  - intros Hu. rewrite Hupd in Hu. apply in_app_or in Hu as [Hu|Hu].
+    + apply in_flat_map in Hu as [[[b t'] p'] [Hin Hu]]. rewrite x_ask_update_eq in Hu. cbn [fst snd] in Hu.
+      destruct (x_omit x b t' p') eqn:Eo; [contradiction|].
+      apply ask_update_in in Hu as [ans [off' [rest [H1 [H2 H3]]]]]. cbn [fst snd] in *. inversion H3; subst t' p' off' c.
+      split; [|rewrite Hs; reflexivity]. left. exists b, ans, rest. rewrite Ha. auto.
+    + apply in_flat_map in Hu as [[[t' p'] br] [Hr Hu]]. unfold extra_update in Hu. cbn [fst snd] in Hu.
+      destruct br as [o'| |]; try contradiction. destruct Hu as [Hu|[]]. inversion Hu; subst t' p' o' c.
+      split; [|rewrite Hs; reflexivity]. right.
+      unfold extra_results in Hr. apply in_flat_map in Hr as [b [Hb Hr]].
+      destruct (e_answer (x_env x) b) as [ans|] eqn:Eans; [|contradiction].
+      apply in_map_iff in Hr as [[[t' p'] [err offs]] [Heq Hf]]. cbn [fst snd] in Heq.
+      apply filter_In in Hf as [Hex Hnot]. cbn [fst snd] in Hnot.
+      inversion Heq as [[Ht Hp Hbr]]. subst t' p'.
+      unfold block_result_of in Hbr. destruct (err =? 0) eqn:Eerr; [|discriminate].
+      apply Z.eqb_eq in Eerr. subst err. destruct offs as [|o1 rest]; [discriminate|]. inversion Hbr; subst o1.
+      unfold asked_brokers in Hb. apply nodup_In in Hb. apply in_map_iff in Hb as [[[b0 t0] p0] [Hb0 Hin0]].
+      cbn [fst] in Hb0. subst b0.
+      exists b, t0, p0, ans, rest. rewrite Ha. repeat split; auto.
+      intros Hin. rewrite (existsb_ask_eqb_true _ _ Hin) in Hnot. discriminate.
+  - intros [[HA|HB] ->].
+    + destruct HA as [b [ans [rest [Hin [Ho [Hans Hblk]]]]]]. rewrite Hupd. apply in_or_app. left.
+      apply in_flat_map. exists (b, t, p). split; [rewrite <- Ha; exact Hin|].
+      rewrite x_ask_update_eq. cbn [fst snd]. rewrite Ho. apply ask_update_in. exists ans, off, rest.
+      cbn [fst snd]. rewrite Hs. auto.
+    + destruct HB as [b [t' [p' [ans [rest [Hin [Hans [Hex Hnot]]]]]]]].
+      eapply xunasked_block_update; eauto.
+Qed.
+
+(* XR.2 (clauses 2 and 3 over runs, no environment hypothesis).  In every cycle of every run of xrun an update
+   (t, p, off, c) is emitted iff a response of THIS cycle holds a successful block for (t, p) with first offset off --
+   an asked block the broker did not omit, or a block nobody asked for in a response that arrived -- and c is the number
+   of partitions of t in the last complete metadata read (0 when that read did not list t).  So: no update without an
+   answer of this cycle, none for an error block (a block with an error code is not (0, _)), none for a failed call,
+   nothing invented or carried over from an earlier cycle. *)
+Theorem xupdate_run l en :
+  In en (xtrace init_state None l) ->
+  forall t p off c, In (t, p, off, c) (co_updates (xn_out en)) <->
+    (answered_asked (xn_env en) (xn_out en) t p off \/ answered_unasked (xn_env en) (xn_out en) t p off)
+    /\ ((exists ge ts ps, xghost_now en = Some ge /\ e_topics ge = Good ts /\ In t ts /\ e_parts ge t = Good ps
+          /\ c = Z.of_nat (length ps))
+        \/ (ghost_find (xghost_now en) t = None /\ c = 0)).
+Proof.
+  intros Hin t p off c. destruct (xtrace_inv _ _ _ _ inv_init Hin) as [Hi Hc].
+  destruct (xentry_post_inv _ _ Hin) as [_ [_ Hf]].
+  rewrite (xupdate_iff _ _ _ Hc). unfold count_of. rewrite Hf.
+  split; intros [HAB Hcnt]; (split; [exact HAB|]).
+  - destruct (ghost_find (xghost_now en) t) as [i|] eqn:Eg.
+    + left. apply ghost_find_some in Eg as [ge [ts [ps [H1 [H2 [H3 [H4 ->]]]]]]]. exists ge, ts, ps. cbn in Hcnt. auto 10.
+    + right. auto.
+  - destruct Hcnt as [[ge [ts [ps [H1 [H2 [H3 [H4 ->]]]]]]]|[Hn ->]].
+    + assert (ghost_find (xghost_now en) t = Some (mkTinfo (filter (has_leader ge t) ps) (Z.of_nat (length ps)))) as ->.
+      { apply ghost_find_some. exists ge, ts, ps. auto. }
+      reflexivity.
+    + rewrite Hn. reflexivity.
+Qed.
+
+(* consequences spelled out: an error block, a failed call and an omitted block give no update *)
+Corollary xno_update_without_answer l en t p :
+  In en (xtrace init_state None l) ->
+  (forall b, In (b, t, p) (co_asks (xn_out en)) ->
+     x_omit (xn_env en) b t p = true
+     \/ e_answer (x_env (xn_env en)) b = Fail
+     \/ exists ans, e_answer (x_env (xn_env en)) b = Good ans /\ fst (ans t p) <> 0) ->
+  (forall b, ~ exists err offs, In (t, p, (err, offs)) (x_extra (xn_env en) b)) ->
+  forall off c, ~ In (t, p, off, c) (co_updates (xn_out en)).
+Proof.
+  intros Hin Hask Hext off c Hu. apply (xupdate_run _ _ Hin) in Hu as [[HA|HB] _].
+  - destruct HA as [b [ans [rest [Ha [Ho [Hans Hblk]]]]]].
+    destruct (Hask b Ha) as [H|[H|[ans' [H1 H2]]]]; [congruence | congruence |].
+    rewrite Hans in H1. inversion H1; subst ans'. rewrite Hblk in H2. cbn in H2. contradiction.
+  - destruct HB as [b [t' [p' [ans [rest [_ [_ [Hex _]]]]]]]]. apply (Hext b). eauto.
+Qed.
+
+(* non-vacuity: a run whose worlds violate BOTH hypotheses.
+   cycle 0 (tick): topic 1 = {p0@b1, p1@b1} at the refresh; in generateOffsetRequests Leader(1,1) FAILS (not stable);
+                   broker 1 adds a block for the unknown topic 9 (answers do not match asks).
+   cycle 1 (no tick, flag set by the unknown leader): the refresh sees p1@b1 again, the request site names b2 for p1;
+                   broker 1 OMITS its asked block (1,0), broker 2 adds a block for (1, 50). *)
+Definition xr_rows (lr1 : call Z) (om0 : bool) : list xtrow :=
+  [ mkXtrow 1 true [ mkXprow (mkProw 0 (Good 1) 0 [10]) (Good 1) om0;
+                     mkXprow (mkProw 1 (Good 1) 0 [20]) lr1 false ] ].
+Definition xr_run : list (bool * xenv) :=
+  [ (true,  xenv_of_tables (Good [1]) (xr_rows Fail false) [] [(1, 9, 0, 0, [77])]);
+    (false, xenv_of_tables (Good [1]) (xr_rows (Good 2) true) [] [(2, 1, 50, 0, [88])]) ].
+
+Example xr_run_violates_both :
+  forall x, In x (map snd xr_run) -> ~ leader_stable x /\ ~ answers_match_asks x.
+Proof.
+  intros x [<-|[<-|[]]]; split.
+  - intros H. specialize (H 1 1). vm_compute in H. discriminate.
+  - intros [_ H]. specialize (H 1). vm_compute in H. discriminate.
+  - intros H. specialize (H 1 1). vm_compute in H. discriminate.
+  - intros [H _]. specialize (H 1 1 0). vm_compute in H. discriminate.
+Qed.
+
+Example xr_run_ex :
+  map (fun en => (fetchMetadata (xn_pre en), fetchMetadata (co_state (xn_out en)), co_asks (xn_out en), co_updates (xn_out en)))
+      (xtrace init_state None xr_run)
+  = [ (true, true, [(1, 1, 0)], [(1, 0, 10, 2); (9, 0, 77, 0)]);
+      (true, false, [(1, 1, 0); (2, 1, 1)], [(1, 1, 20, 2); (1, 50, 88, 2)]) ].
+Proof. vm_compute. reflexivity. Qed.
+
+Example xr_run_is_xrun :
+  xrun init_state xr_run
+  = map (fun en => (fetchMetadata (xn_pre en), Done (xn_out en))) (xtrace init_state None xr_run).
+Proof. vm_compute. reflexivity. Qed.
